@@ -130,8 +130,17 @@ pub const NOW_VALUES: [&str; 4] = [
 pub const MK_NAMES: [&str; 4] = ["feat-a", "Feat", "feat-b", "feat"];
 pub const MK_NEVER: [&str; 4] = ["FEAT-A", "feat-a2", "eat", "Feat "];
 
+/// Configuration of step k: elements with level <= k are satisfied. Step 0 satisfies nothing
+/// (a `now` before every expiry value, empty target set).
 pub fn step_cfg(step: u8) -> Cfg {
-    assert!((1..=4).contains(&step));
+    assert!(step <= 4);
+    if step == 0 {
+        return Cfg {
+            now: "2019-12-31T23:59:58+00:00".to_string(),
+            offset: "+00:00".to_string(),
+            targets: vec![],
+        };
+    }
     Cfg {
         now: NOW_VALUES[step as usize - 1].to_string(),
         offset: "+00:00".to_string(),
@@ -163,9 +172,11 @@ pub fn tag_body(e: &Elem, sp: &Sp, multiline: bool) -> String {
     let name = elem_name(&e.kind, sp);
     let mut attrs: Vec<String> = vec![];
     let lvl = e.level.clamp(1, 5) as usize;
+    // spaces around '=' now and then (C09 grammar: optional spaces around '=')
+    let eq = if r.chance(1, 6) { *r.pick(&[" =", "= ", " = "]) } else { "=" };
     match e.kind {
         Kind::Tl | Kind::Unreg => {
-            attrs.push(format!("to={q}{}{q}", TO_VALUES[lvl - 1]));
+            attrs.push(format!("to{eq}{q}{}{q}", TO_VALUES[lvl - 1]));
         }
         Kind::Mk => {
             let n = if lvl <= 4 {
@@ -173,7 +184,7 @@ pub fn tag_body(e: &Elem, sp: &Sp, multiline: bool) -> String {
             } else {
                 MK_NEVER[r.below(MK_NEVER.len())]
             };
-            attrs.push(format!("name={q}{n}{q}"));
+            attrs.push(format!("name{eq}{q}{n}{q}"));
         }
     }
     if e.unwrap {
@@ -184,7 +195,12 @@ pub fn tag_body(e: &Elem, sp: &Sp, multiline: bool) -> String {
     }
     if r.chance(1, 4) {
         let other = if q == '"' { '\'' } else { '"' };
-        attrs.push(format!("c={q}note: skip unwrap-block = x{other}s{q}"));
+        if r.chance(1, 5) {
+            // a value ending in a backslash (no escaping in the grammar: the quote still closes it)
+            attrs.push(format!("c={q}C:\\legacy\\{q}"));
+        } else {
+            attrs.push(format!("c={q}note: skip unwrap-block = x{other}s{q}"));
+        }
     }
     r.shuffle(&mut attrs);
     let pad_l = if r.chance(1, 3) { " " } else { "" };
@@ -240,8 +256,19 @@ pub fn render_with(pieces: &[Piece], sp: &Sp, multiline: bool) -> Rendered {
                     go(&e.children, sp, out, Some(id), depth + 1, multiline);
                     let c = out.text.len();
                     out.text.push_str(&sp.ds);
+                    // closing tags are tags too: optional padding and, rarely, an attribute
+                    let cstyle = e.style.rotate_left(17) % 24;
+                    if cstyle == 0 || cstyle == 1 {
+                        out.text.push(' ');
+                    }
                     out.text.push('/');
                     out.text.push_str(&elem_name(&e.kind, sp));
+                    if cstyle == 2 {
+                        out.text.push_str(" c=\"end\"");
+                    }
+                    if cstyle == 1 || cstyle == 3 {
+                        out.text.push(' ');
+                    }
                     out.text.push_str(&sp.de);
                     out.elems[id].close = (c, out.text.len());
                 }
@@ -284,6 +311,10 @@ pub struct GenCfg {
     pub wrapper_tags: bool,
     /// inline lead / trailing text may contain tabs
     pub inline_tabs: bool,
+    /// an inline element may share the line of an unwrap-block's opening tag (after it) or of its
+    /// closing tag (before it): geometry in which the unwrap extent is unspecified, used only
+    /// by relational monitors (C19 idempotence / composition, C01)
+    pub tagline_tags: bool,
 }
 
 pub const WORDS: [&str; 10] = [
@@ -319,11 +350,22 @@ impl GenCfg {
             words: WORDS.to_vec(),
             wrapper_tags: false,
             inline_tabs: false,
+            tagline_tags: false,
         }
     }
 }
 
 fn code_line(r: &mut Rng, cfg: &GenCfg) -> String {
+    let mut s = code_line_plain(r, cfg);
+    // now and then trailing blanks (they belong to the line and must survive)
+    if r.chance(1, 12) {
+        let t: &str = *r.pick(&[" ", "\t", "  "]);
+        s.push_str(t);
+    }
+    s
+}
+
+fn code_line_plain(r: &mut Rng, cfg: &GenCfg) -> String {
     if cfg.multibyte && r.chance(1, 4) {
         let w = r.pick(&MB_WORDS).to_string();
         if cfg.words.len() == WORDS.len() || SAFE_WORDS.contains(&w.as_str()) {
@@ -381,7 +423,34 @@ pub fn gen_elem(r: &mut Rng, cfg: &GenCfg, depth: usize, indent: usize, unwrap: 
             } else {
                 (format!("{ind}if (cond) {{"), format!("{ind}}}"))
             };
+            if cfg.tagline_tags && r.chance(1, 3) {
+                // inline element right after the opening tag, on the same line
+                let mut e = gen_elem(r, cfg, cfg.max_depth, indent, false);
+                e.children = vec![Piece::Text(format!(" {} ", code_line(r, cfg)))];
+                children.push(Piece::Text(" ".into()));
+                children.push(Piece::Elem(e));
+            }
             children.push(Piece::Text(format!("\n{w1}")));
+            if cfg.wrapper_tags && r.chance(1, 8) {
+                // one element opening on the opening wrapper line and closing on the closing
+                // wrapper line (it spans the whole body)
+                let mut e = gen_elem(r, cfg, cfg.max_depth, indent, false);
+                let n = r.below(3);
+                let mut inner = gen_lines(r, cfg, cfg.max_depth, body_indent, n);
+                inner.push(Piece::Text(format!("\n{w2} ")));
+                e.children = inner;
+                children.push(Piece::Text(" ".into()));
+                children.push(Piece::Elem(e));
+                children.push(Piece::Text(format!("\n{ind}")));
+                return Elem {
+                    kind,
+                    level,
+                    skip,
+                    unwrap,
+                    style: r.next(),
+                    children,
+                };
+            }
             if cfg.wrapper_tags && r.chance(1, 4) {
                 // inline element on the opening wrapper line
                 let mut e = gen_elem(r, cfg, cfg.max_depth, indent, false);
@@ -406,6 +475,13 @@ pub fn gen_elem(r: &mut Rng, cfg: &GenCfg, depth: usize, indent: usize, unwrap: 
         children.extend(gen_lines(r, cfg, depth + 1, bi, n));
     }
     children.push(Piece::Text(format!("\n{ind}")));
+    if unwrap && cfg.tagline_tags && r.chance(1, 4) {
+        // inline element right before the closing tag, on the same line
+        let mut e = gen_elem(r, cfg, cfg.max_depth, indent, false);
+        e.children = vec![Piece::Text(code_line(r, cfg))];
+        children.push(Piece::Elem(e));
+        children.push(Piece::Text(" ".into()));
+    }
     Elem {
         kind,
         level,
@@ -457,6 +533,15 @@ pub fn gen_lines(r: &mut Rng, cfg: &GenCfg, depth: usize, indent: usize, n: usiz
                     e.unwrap = true;
                 }
                 v.push(Piece::Elem(e));
+                if r.chance(1, 5) {
+                    // a second inline element directly behind the first, on the same line
+                    let mut e2 = gen_elem(r, cfg, cfg.max_depth, indent, false);
+                    e2.children = vec![Piece::Text(code_line(r, cfg))];
+                    if r.chance(1, 2) {
+                        v.push(Piece::Text(" ".into()));
+                    }
+                    v.push(Piece::Elem(e2));
+                }
                 if r.chance(1, 2) {
                     if cfg.inline_tabs && r.chance(1, 2) {
                         v.push(Piece::Text(format!("\t{}\t", code_line(r, cfg))));
